@@ -330,6 +330,53 @@ pub fn check_front_agreement(c: &Case, obs: &mut Obs) -> PResult {
     Ok(())
 }
 
+/// the success-ratio front-end on populations beyond 2^50: the count it implies is round(ratio * n); the exact product
+/// and its f64 rounding may round differently at a tie, so either reading is accepted — nothing else
+pub fn ratio_big_case(c: &Case, obs: &mut Obs) -> PResult {
+    use crate::exact::Dy;
+    use num_bigint::BigInt;
+    use num_traits::{Signed, ToPrimitive};
+    let conf = c.conf.get();
+    let n = c.n as usize;
+    let ratio = c.k as f64 / c.n as f64;
+    // exact product ratio * n, rounded half away from zero
+    let p = Dy::from_f64(ratio);
+    let prod = p.num.clone() * BigInt::from(c.n); // times 2^exp
+    let k_exact: Option<u64> = if p.exp >= 0 {
+        (prod.clone() << p.exp as usize).to_u64()
+    } else {
+        let sh = (-p.exp) as usize;
+        let half = BigInt::from(1u8) << (sh - 1);
+        ((prod.abs() + half) >> sh).to_u64()
+    };
+    let k_float = (ratio * c.n as f64).round() as u64;
+    obs.eval();
+    let got = call(|| proportion::ci_wilson_ratio(conf, n, ratio));
+    if ratio == 0.0 && matches!(got, Out::Err(_)) {
+        // a ratio of exactly 0 is outside the documented domain of the ratio form (NonPositiveValue)
+        obs.exclude("ratio 0 (rejected by the ratio form itself)");
+        return Ok(());
+    }
+    let mut candidates = vec![k_float];
+    if let Some(k) = k_exact {
+        if k != k_float {
+            candidates.push(k);
+        }
+    }
+    let ok = candidates.iter().any(|&k| {
+        let base = call(|| proportion::ci_wilson(conf, n, k as usize));
+        match (&base, &got) {
+            (Out::Ok(a), Out::Ok(b)) => crate::model::bits_eq(a, b),
+            (Out::Err(a), Out::Err(b)) => ek(a) == ek(b),
+            _ => false,
+        }
+    });
+    ensure!(ok, "C02/ci_wilson_ratio/differs_from_counts", "ci_wilson_ratio(n={}, ratio={ratio:e} = {}/n, {:?}) = {} agrees with ci_wilson for neither reading of round(ratio n): {candidates:?}", c.n, c.k, c.conf, describe(&got));
+    obs.class("front/ci_wilson_ratio/huge-n");
+    obs.nontrivial(&("ratio_big", c.n, c.k, c.conf.kind, c.conf.l().to_bits()));
+    Ok(())
+}
+
 pub fn is_significant_case(nk: &(u64, u64), obs: &mut Obs) -> PResult {
     let (n, k) = *nk;
     obs.eval();
@@ -447,6 +494,20 @@ pub fn run(run: &mut Run) {
     // random beyond the grid
     let cases = run.tier.pick(100_000u32, 4_000_000);
     let s = (big_nk(), crate::gen::conf(), prop::sample::select(vec![0u8, 1, 2, 9, WALD])).prop_map(|((n, k), conf, front)| Case { n, k, conf, front: if (k > n && front == 9) || (front == 2 && n > (1u64 << 50)) { 1 } else { front }, pattern: 0 });
+    {
+        // populations in (2^50, 2^53] (where k/n no longer determines k to the unit) and beyond, counts of either parity,
+        // next to both ends of the domain and in the middle
+        let s = (prop_oneof![(1u64 << 50)..=(1u64 << 53), (1u64 << 52)..=(1u64 << 52) + 64, (1u64 << 53)..(1u64 << 60)], any::<u64>(), 0u8..4, crate::gen::conf()).prop_map(|(n, r, place, conf)| {
+            let k = match place {
+                0 => r % 8,
+                1 => n - (r % 8),
+                _ => ((r as u128 * (n as u128 + 1)) >> 64) as u64,
+            };
+            Case { n, k: k.min(n), conf, front: 2, pattern: 0 }
+        });
+        run.prop("ratio_big", run.tier.pick(20_000, 1_000_000), s, ratio_big_case);
+        run.require_class("front/ci_wilson_ratio/huge-n");
+    }
     run.prop("random_big", cases, s, |c, obs| {
         obs.nontrivial(&(c.n, c.k, c.conf.kind, c.conf.l().to_bits(), c.front));
         case(c, obs)
@@ -474,6 +535,7 @@ pub fn replay(sub: &str, v: &Value, obs: &mut Obs) -> Option<PResult> {
     Some(match sub {
         "history" => crate::props::history::case(&de(v), obs),
         "grid" | "random_big" | "random_front" => case(&de(v), obs),
+        "ratio_big" => ratio_big_case(&de(v), obs),
         "front" => check_front_agreement(&de(v), obs),
         "is_significant" => is_significant_case(&de(v), obs),
         _ => return None,
